@@ -1,3 +1,3 @@
--- This module serves as the root of the `GettsimVerif` library.
--- Import modules here that should be built as part of the library.
-import GettsimVerif.Basic
+-- Root of the `GettsimVerif` library.
+import GettsimVerif.Core.Basic
+import GettsimVerif.Core.Agg
